@@ -7,6 +7,27 @@ VERIF = Path(__file__).resolve().parent.parent
 
 # property id -> (design section, what the theorems give, what is assumed)
 CLAIMS = {
+    "C05": ("8/C05",
+            "Lean 4 theorems for arbitrary strictly increasing grids, arbitrary averages and every valid window assignment "
+            "(fixed: windowsFixed_valid; adaptive: windowsAdaptive_valid for every positive smoothing function): border value "
+            "between the two adjacent averages (z0_between); left samples between previous and own average, right samples "
+            "between own and next average, plateau samples equal to the average exactly (lin_/exp_ left_bounded, right_bounded, "
+            "plateau, no_overshoot); at most a-1 samples off the plateau (count theorems); monotone movement border->plateau "
+            "for the linear strategies unconditionally and for the exp strategies under pw t <= t (exponent >= 1) - the "
+            "full clause is FALSE of the code for small exponents (blend_not_monotone_witness in Lean, known finding D12 on "
+            "the real code); piecewise-constant exact; constant series stay constant. Shape functions tied to funfit.py by T1. "
+            "Tie: three-step correspondence (parameters, windows, values).",
+            "partial: monotonic clause for Exp*RFA with exponent < 1 (proved for >= 1, false < ~0.133, open in between); "
+            "cubic-spline clauses are SciPy's contract, checked on the real code only; transition factor <= 1 (a <= n)."),
+    "C06": ("8/C06",
+            "Lean 4 theorems: closed forms and both end points of the five shape functions for EVERY exponent function, for "
+            "the hand model and for the definitions regenerated from funfit.py (gen_*_closed via the T1 tie); border value of "
+            "the fixed strategies = linear interpolation at the border between the plateau ends (border_fixed, lin_/"
+            "exp_border_fixed); straight-line and linear+blend shapes of the transitions (left_linear, right_linear, "
+            "exp_left_shape, exp_right_shape); adaptive split: un-floored shares sum to a and are in the ratio right jump : "
+            "left jump, the side with the larger jump never gets the larger window, the three tie branches. Tie: T1 + "
+            "correspondence on funfit.* and the window strategies.",
+            "adaptive smoothing fixed at 1 (gpow = id) for the split clauses, as the property says."),
     "C04": ("8/C04",
             "Lean 4 theorems for every strategy and any windows: Rfa.run rejects exactly n < 2 with ValueError; the returned "
             "grid is the cut [n:-n] of the extended grid and equals oversample_linspace (rfa_grid_eq_oversample); both outputs "
@@ -89,7 +110,7 @@ NOT_YET = {
 ALL = [f"C{n:02d}" for n in range(1, 21)]
 
 # properties whose theorems, tie and check are complete enough to be claimed
-BUILT = ["C01", "C03", "C04", "C07", "C10", "C12", "C14", "C17"]
+BUILT = ["C01", "C03", "C04", "C05", "C06", "C07", "C10", "C12", "C14", "C17"]
 
 
 
